@@ -1,15 +1,15 @@
 SPECIFICATION Spec
 CONSTANTS
-  Ids = {"r1", "r2"}
-  Lens = {100, 7340032}
-  MaxSizes = {20971519, 20971520, 25165824}
+  Ids = {"r1"}
+  Lens = {100}
+  MaxSizes = {20971520}
   SegMax = 10485760
-  MaxBatches = 2
+  MaxBatches = 1
   MaxOps = 0
   Menu = {"init", "delete", "update", "enq", "deliver", "track", "untrack", "storeset", "closeall", "crash", "start"}
   Prefix <- NoPrefix
   Refusals = {"exists", "notfound", "toosmall", "full", "startup"}
-  KickOnOpen = TRUE
+  KickOnOpen = FALSE
   InitLeavesDir = TRUE
   Record = FALSE
 INVARIANTS TypeOK PendingIsWant OpenHasDir DownHasNoQueue NoStrandedBatch HeldHasBatch SizesAreDiskUsage
